@@ -1,6 +1,7 @@
 import AcraModel.Wire.LenEncProofs
 import AcraModel.Wire.PgLemmas
 import AcraModel.Wire.MysqlLemmas
+import AcraModel.Wire.ByteaLemmas
 /-!
 # C12 — relayed messages stay byte-identical; rewritten ones stay well-formed
 
@@ -312,6 +313,27 @@ theorem rewrite_wellformed_mysql_bin (types : List Nat) (f : Nat → Bytes → B
   rw [h1] at this
   cases this
   rfl
+
+/-! ## part 4 — bytea text codecs -/
+
+open AcraModel.Wire.Bytea in
+/-- **bytea_hex_roundtrip.** `DecodeEscaped (PgEncodeToHex b) = b` for every byte string. -/
+theorem bytea_hex_roundtrip (b : Bytes) : decodeEscaped (pgEncodeToHex b) = .ok b := decodeEscaped_pgEncodeToHex b
+
+open AcraModel.Wire.Bytea in
+/-- **bytea_octal_roundtrip.** `DecodeOctal (EncodeToOctal b) = b` for every byte string (backslashes
+doubled, non-printable bytes as three octal digits), and `DecodeEscaped` takes the octal branch on it
+(the escape form never starts with `\x`). -/
+theorem bytea_octal_roundtrip (b : Bytes) :
+    decodeOctal (encodeToOctal b) = some b ∧ decodeEscaped (encodeToOctal b) = .ok b :=
+  ⟨decodeOctal_encodeToOctal b, decodeEscaped_encodeToOctal b⟩
+
+open AcraModel.Wire.Bytea in
+/-- The escape form consists of printable ASCII only, and hex decoding accepts exactly twice as many
+digits as it returns bytes. -/
+theorem bytea_forms (b : Bytes) :
+    (∀ c ∈ encodeToOctal b, isPrintable c = true) ∧ (∀ s r, hexDecode s = some r → s.length = 2 * r.length) :=
+  ⟨encodeToOctal_printable b, hexDecode_length⟩
 
 /-! ## non-vacuity -/
 
